@@ -711,29 +711,28 @@ def run(ctx: core.Ctx):
     for fr in chunks([f.name for f in DATA_IN], 12):
         shards.append((shard_frames, (fr, allv, MODES)))
     shards.append((shard_frames, (["out"], V_THIN, MODES)))
+    qmodes = ("static", "blk-flag-off") if q else MODES
     # 3. data-out frames (Markup-valued results) x every carrier
     for f in DATA_OUT:
         for u in units:
-            shards.append((shard_d1, (f.name, u, lvl, (), MODES)))
+            shards.append((shard_d1, (f.name, u, lvl, (), qmodes)))
     # 4. filter-hole frames x every filter shape
     for f in FILTER_HOLE:
         for u in fnames:
-            shards.append((shard_d1, (f.name, u, lvl, (), MODES)))
+            shards.append((shard_d1, (f.name, u, lvl, (), qmodes)))
     # 5. data-in frames x carriers (frame x filter), two values
-    d5_modes = ("static", "blk-flag-off") if q else MODES
     d5_frames = [f.name for f in DATA_IN if f.name != "out"]
     if q:
-        d5_frames = [n for n in d5_frames if n in ("macro-arg", "call-body", "super", "set-block", "include",
-                                                   "import-arg", "self-block", "macro-default")]
+        d5_frames = ["macro-arg", "call-body", "set-block", "include"]
     for fn in d5_frames:
         for u in units:
-            shards.append((shard_d1, (fn, u, "q", ("x", LIT), d5_modes)))
+            shards.append((shard_d1, (fn, u, "q", ("x", LIT), qmodes)))
     # 6. filter x filter (and ops/methods on either side)
-    d6_modes = ("static", "blk-flag-off") if q else MODES
-    outer_groups = chunks(fnames if q else units, 54 if q else 14)
+    d6_modes = ("static",) if q else MODES
+    outer_groups = chunks(fnames if q else units, 1 if q else 4)
     for inner in units:
         for og in outer_groups:
-            shards.append((shard_d2, (inner, og, "min" if q else "q", d6_modes, 4 if q else 12)))
+            shards.append((shard_d2, (inner, og, "min" if q else "q", d6_modes, 2 if q else 12)))
     ctx.pmap(_dispatch, shards)
     ctx.cov["bounds"] = {
         "tier": ctx.tier, "filters": len(fnames), "tests": len(_test_names()), "frames": len(FRAMES),
